@@ -136,12 +136,18 @@ func startConsumerAck(s *srv.Server, kind, stream string, ackEvery int) (*liveCo
 		if err == nil && ackEvery > 0 {
 			lc.rtmp.SetAckEvery(ackEvery)
 		}
-	case "flv":
-		lc.http, err = srv.StartHttpSub(s.HttpAddr(), "/live/"+stream+".flv", "flv", 5*time.Second)
-	case "wsflv":
-		lc.http, err = srv.StartHttpSub(s.HttpAddr(), "/live/"+stream+".flv", "wsflv", 5*time.Second)
+	case "flv", "wsflv":
+		if s.Conf.FlvHttpsOnly {
+			lc.http, err = srv.StartHttpsSub(s.HttpsAddr(), "/live/"+stream+".flv", kind, 5*time.Second)
+		} else {
+			lc.http, err = srv.StartHttpSub(s.HttpAddr(), "/live/"+stream+".flv", kind, 5*time.Second)
+		}
 	case "ts":
-		lc.http, err = srv.StartHttpSub(s.HttpAddr(), "/live/"+stream+".ts", "ts", 5*time.Second)
+		if s.Conf.TsHttpsOnly {
+			lc.http, err = srv.StartHttpsSub(s.HttpsAddr(), "/live/"+stream+".ts", "ts", 5*time.Second)
+		} else {
+			lc.http, err = srv.StartHttpSub(s.HttpAddr(), "/live/"+stream+".ts", "ts", 5*time.Second)
+		}
 	default:
 		err = fmt.Errorf("unknown consumer kind %s", kind)
 	}
